@@ -10,12 +10,13 @@ import importlib
 import json
 import os
 import shutil
+import signal
 import subprocess
 import sys
 import tempfile
 import time
 
-from . import core, env
+from . import breadcrumb, core, env
 
 
 def load_prop(prop_id):
@@ -65,7 +66,7 @@ def main(argv=None):
             p = subprocess.Popen(cmd, cwd=env.VERIF_DIR, env=child_env(os.path.join(tmp, 'scratch%d' % k)),
                                  stdout=subprocess.PIPE, stderr=subprocess.STDOUT)
             procs.append((k, p, out))
-        dumps, problems = [], []
+        dumps, problems, cpu_kills = [], [], []
         deadline = t0 + timeout + 30
         for k, p, out in procs:
             try:
@@ -74,6 +75,10 @@ def main(argv=None):
                 p.kill()
                 text, _ = p.communicate()
                 problems.append('shard %d hit the wall-clock watchdog (%ds)' % (k, timeout))
+                continue
+            if p.returncode == -signal.SIGVTALRM:
+                # the kernel ended the shard: one guarded call used up its CPU allowance (breadcrumb.py)
+                cpu_kills.append(breadcrumb.read(out + '.crumb'))
                 continue
             if p.returncode != 0 or not os.path.exists(out):
                 lines = (text or b'').decode('utf8', 'replace').strip().splitlines()
@@ -90,6 +95,16 @@ def main(argv=None):
         shutil.rmtree(tmp, ignore_errors=True)
 
     merged = core.merge(dumps)
+    for crumb in cpu_kills:
+        what = crumb.get('call') or crumb.get('case')
+        if getattr(mod, 'CPU_VERDICT', False):
+            v = merged['violations'].setdefault('cpu_allowance_used_up_inside_one_call', {'count': 0, 'witnesses': []})
+            v['count'] += 1
+            if len(v['witnesses']) < core.MAX_WITNESS_PER_MECH:
+                v['witnesses'].append({'case': what, 'cpu_seconds_allowed': core.CPU_ALLOWANCE_S,
+                                       'note': 'the shard was ended by SIGVTALRM while making this call'})
+        else:
+            problems.append('a guarded call used up its CPU allowance (this property does not speak about time): %s' % (json.dumps(what)[:300],))
     for pr in problems:
         if pr not in merged['inconclusive']:
             merged['inconclusive'].append(pr)
@@ -98,6 +113,27 @@ def main(argv=None):
 
 
 def replay(mod, path, tier, seed):
+    pid = os.fork()
+    if pid == 0:
+        try:
+            code = _replay(mod, path, tier, seed)
+        except BaseException:      # noqa
+            import traceback
+            traceback.print_exc()
+            code = 2
+        sys.stdout.flush()
+        sys.stderr.flush()
+        os._exit(code)
+    _, status = os.waitpid(pid, 0)
+    if os.WIFSIGNALED(status) and os.WTERMSIG(status) == signal.SIGVTALRM:
+        print('replay of %s on %s: the call used up its CPU allowance of %d s again' % (path, env.REPO, core.CPU_ALLOWANCE_S))
+        print('VIOLATION property=%s replay=%s' % (mod.ID, path))
+        print('  mechanism: cpu_allowance_used_up_inside_one_call  (1 cases)')
+        return 1
+    return os.WEXITSTATUS(status) if os.WIFEXITED(status) else 2
+
+
+def _replay(mod, path, tier, seed):
     with open(path) as f:
         body = json.load(f)
     witness = body['witness']
